@@ -416,6 +416,11 @@ pub fn deserialize_stream<D: Deserializable>(buf: &mut &[u8]) -> anyhow::Result<
                     &mut decompressed_buffer[..u16::MAX as usize],
                 )
                 .context("failed to decompress block")?;
+                #[cfg(feature = "verif")]
+                crate::verif::log_decompress(
+                    compressed_block_bytes,
+                    &decompressed_buffer[..uncompressed_len],
+                );
                 buf.advance(len);
                 decompressed_data.extend_from_slice(&decompressed_buffer[..uncompressed_len]);
             }
